@@ -12,7 +12,11 @@ import Lumina.Gen.C25
 
     init n=N sw=K pw=J bs=B h0=H   fresh store holding the network head H, worker with head H, 1 peer
     ins a=A b=B | prune h=H | sample a=A b=B | head h=H | slow h=H|none | peers n=P | bs n=B
+    advance d=D                    D days pass: every header is D days older from now on
     fetch | fetchkeep | cancel | deliver ok=0|1 | state | reset
+  A fetch line ends with `edge=E`: the highest height whose header is outside the sampling
+  window at that moment — computed by the harness from the real header times and the real clock,
+  by the model from `n`, `sw` and the days advanced; the spec judges against the harness's.
 -/
 open Lumina.Util Lumina.Model.Ranges Lumina.Model.SyncerGate
 
@@ -22,10 +26,16 @@ structure St where
   n : Nat := 0
   sw : Nat := 0
   pw : Nat := 0
+  /-- days passed since `init` -/
+  adv : Nat := 0
   s : State := {}
 
 def chain (st : St) : Chain :=
-  { oldS := fun h => decide (st.n + 1 - h > st.sw), oldP := fun h => decide (st.n + 1 - h > st.pw) }
+  { oldS := fun h => decide (st.n + 1 - h + st.adv > st.sw),
+    oldP := fun h => decide (st.n + 1 - h + st.adv > st.pw) }
+
+/-- highest height of the chain whose header is outside the sampling window now -/
+def edge (st : St) : Nat := min st.n (st.n + st.adv - st.sw)
 
 def slowMin : Nat := Lumina.Gen.C25.SLOW_SYNC_MIN_THRESHOLD
 
@@ -47,7 +57,8 @@ def showOut : Out → String
   | .decision d => showDecision d
 
 /-- the part of the store a fetch decision is judged against -/
-def showView (st : St) : String := s!"st={showRanges st.s.stored} pr={showRanges st.s.pruned}"
+def showView (st : St) : String :=
+  s!"st={showRanges st.s.stored} pr={showRanges st.s.pruned} edge={edge st}"
 
 def doStep (st : St) (op : Op) : St × Out :=
   let (s', o) := Lumina.Model.SyncerGate.step slowMin (chain st) st.s op
@@ -109,6 +120,10 @@ def step (st : St) (line : String) : St × String :=
     match natArg? ws "n" with
     | some n => let (st', _) := doStep st (.setBatch n); (st', "ok")
     | none => (st, "bad-op")
+  | "advance" :: _ =>
+    match natArg? ws "d" with
+    | some d => ({ st with adv := st.adv + d }, "ok")
+    | none => (st, "bad-op")
   | "fetch" :: _ => let (st', o) := doStep st (.fetch false); (st', s!"{showOut o} {showView st}")
   | "fetchkeep" :: _ => let (st', o) := doStep st (.fetch true); (st', s!"{showOut o} {showView st}")
   | "cancel" :: _ => let (st', o) := doStep st .cancel; (st', showOut o)
@@ -145,14 +160,15 @@ def spec (st : St) (op : String) (obs : String) : String :=
   | "fetch" :: _ | "fetchkeep" :: _ =>
     -- the view is the IMPLEMENTATION's own store (printed with the decision), not the model's
     let os := words obs
-    match parseObs os, (arg? os "st").bind parseRanges, (arg? os "pr").bind parseRanges with
-    | some o, some stored, some pruned =>
-      let v : Lumina.Spec.C25.View := { stored := stored, pruned := pruned, old := (chain st).oldS }
+    match parseObs os, (arg? os "st").bind parseRanges, (arg? os "pr").bind parseRanges, natArg? os "edge" with
+    | some o, some stored, some pruned, some e =>
+      -- `old` from the header times the harness read, not from the declared `n=`/`sw=`
+      let v : Lumina.Spec.C25.View := { stored := stored, pruned := pruned, old := fun h => decide (h ≤ e) }
       if Lumina.Spec.C25.specFetch v o then "specok"
       else if Lumina.Spec.C25.belowPrunedOldBound v o then
         "specfail C25/request-below-pruned-old-bound batch requested although the header just above it was pruned and is older than the sampling window"
       else "specfail C25/request-below-old-synced-header batch requested below a synced header older than the sampling window"
-    | _, _, _ => "specfail C25/unparsed"
+    | _, _, _, _ => "specfail C25/unparsed"
   | _ => "specskip"
 
 def handler : Driver.Handler St := { init := {}, step := step, spec := spec }
